@@ -1,4 +1,5 @@
 import DaskModel.Lemmas.Join
+set_option linter.unusedSimpArgs false
 /-! # C39 — joins and concatenation equal pandas (theorems)
 
 Model: `Model/Join.lean`. The pandas semantics of a merge on one pair of in-memory frames is the
@@ -143,6 +144,82 @@ theorem colocated_join_eq_global (g : Row → List Row → List Out) (hg : ∀ l
     ← List.flatMap_def]
   exact classJoin_joinWith_perm g hg c n hc L R
 
+
+/-! ## the order of the rows inside the co-located partitions does not matter -/
+
+/-- the per-row expansion does not depend on the order of the matches (up to the order of its output) -/
+def PermInv (g : Row → List Row → List Out) : Prop := ∀ l ms ms', ms.Perm ms' → (g l ms).Perm (g l ms')
+
+theorem gInner_permInv : PermInv gInner := fun _ _ _ h => List.Perm.map _ h
+
+theorem gLeft_permInv : PermInv gLeft := by
+  intro l ms ms' h
+  unfold gLeft
+  have : ms.isEmpty = ms'.isEmpty := by
+    have := h.length_eq
+    cases ms <;> cases ms' <;> simp_all
+  rw [this]
+  split
+  · exact List.Perm.refl _
+  · exact gInner_permInv l ms ms' h
+
+theorem gSemi_permInv : PermInv gSemi := by
+  intro l ms ms' h
+  unfold gSemi
+  have : ms.isEmpty = ms'.isEmpty := by
+    have := h.length_eq
+    cases ms <;> cases ms' <;> simp_all
+  rw [this]
+
+theorem joinWith_perm (g : Row → List Row → List Out) (hg : PermInv g) (L L' R R' : List Row) (hL : L.Perm L')
+    (hR : R.Perm R') : (joinWith g L R).Perm (joinWith g L' R') := by
+  unfold joinWith
+  refine (List.Perm.flatMap_right _ hL).trans ?_
+  apply flatMap_perm_congr
+  intro l _
+  exact hg l _ _ (List.Perm.filter _ hR)
+
+theorem flatten_perm_of_pointwise {α : Type} : ∀ (As Bs : List (List α)), As.length = Bs.length →
+    (∀ (p : Nat) (A B : List α), As[p]? = some A → Bs[p]? = some B → A.Perm B) → As.flatten.Perm Bs.flatten
+  | [], [], _, _ => List.Perm.refl _
+  | [], _ :: _, h, _ => by simp at h
+  | _ :: _, [], h, _ => by simp at h
+  | A :: As, B :: Bs, h, hp => by
+    rw [List.flatten_cons, List.flatten_cons]
+    exact List.Perm.append (hp 0 A B rfl rfl)
+      (flatten_perm_of_pointwise As Bs (by simpa using h) fun p A' B' hA hB => hp (p + 1) A' B' (by simpa using hA) (by simpa using hB))
+
+/-- **partition-wise join = global join given co-location, rows in ANY order inside the partitions** (what a real
+    shuffle delivers: partition `p` of each frame is a permutation of the rows whose key is in class `p`) -/
+theorem colocated_join_perm (g : Row → List Row → List Out) (hg : ∀ l ms o, o ∈ g l ms → o.1 = l.1) (hgp : PermInv g)
+    (c : Nat → Nat) (n : Nat) (hc : ∀ k, c k < n) (L R : List Row) (Ls Rs : List (List Row))
+    (hLl : Ls.length = n) (hRl : Rs.length = n)
+    (hL : ∀ (p : Nat) (P : List Row), Ls[p]? = some P → P.Perm (partBy c p L))
+    (hR : ∀ (p : Nat) (P : List Row), Rs[p]? = some P → P.Perm (partBy c p R)) :
+    (List.zipWith (joinWith g) Ls Rs).flatten.Perm (joinWith g L R) := by
+  refine List.Perm.trans ?_ (classJoin_joinWith_perm g hg c n hc L R)
+  unfold classJoin
+  rw [List.flatMap_def]
+  apply flatten_perm_of_pointwise
+  · simp [hLl, hRl]
+  · intro p A B hA hB
+    rw [List.getElem?_zipWith] at hA
+    cases hl : Ls[p]? with
+    | none => simp [hl] at hA
+    | some Lp =>
+      cases hr : Rs[p]? with
+      | none => simp [hl, hr] at hA
+      | some Rp =>
+        simp only [hl, hr, Option.map_some, Option.bind_some, Option.some.injEq] at hA
+        subst hA
+        have hp : p < n := by
+          have := (List.getElem?_eq_some_iff.mp hl).1; omega
+        rw [List.getElem?_map, List.getElem?_range hp] at hB
+        simp only [Option.map_some, Option.some.injEq] at hB
+        subst hB
+        exact joinWith_perm g hgp _ _ _ _ (hL p Lp hl) (hR p Rp hr)
+example : PermInv gLeft := gLeft_permInv
+example : [(4, 1), (2, 0)].Perm (partBy (fun k => k % 2) 0 [(2, 0), (3, 5), (4, 1)]) := by decide
 
 /-- the index join of two frames repartitioned to common divisions `d` is the instance `c = interval index`: -/
 example : partBy (fun k => if k < 5 then 0 else 1) 1 [(2, 0), (7, 1), (5, 2)] = [(7, 1), (5, 2)] := by decide
